@@ -156,7 +156,16 @@ func (t *tstream) compare(impl, model string, scale float64) bool {
 	return false
 }
 
+// set once in runC01: the streams (driver access for `judged`) and the summary (counters in the oracle)
+var (
+	gst *streams
+	gs  *kit.Summary
+)
+
 func report(s *kit.Summary, x *in, f finding) {
+	if _, done := f.key["model_agrees"]; !done && gst != nil && f.clause != "rate" {
+		f = judged(gst, x, f)
+	}
 	k := x.key(f.key)
 	k["clause"] = f.clause
 	if r, ok := k["amp_over_mean"].(float64); ok {
@@ -287,15 +296,19 @@ func point(st *streams, s *kit.Summary, x *in, withRate bool) {
 	w, stop, pk, line := pace(p, x.Elapsed, x.Hits)
 	op := fmt.Sprintf("c01.%s.pace %s %d %d", x.Pacer, x.params(), x.Elapsed, x.Hits)
 	s.Count(x.Pacer + ".point:" + branchOf(w, stop, pk))
+	if f, bad := negativeWait(s, x, x.Elapsed, x.Hits, w, stop, pk); bad {
+		report(s, x, judged(st, x, f))
+	}
 	switch x.Pacer {
 	case "const":
 		st.constPace.add(op, line)
 		for _, f := range constPointFindings(x, w, stop, pk) {
-			report(s, x, f)
+			report(s, x, judged(st, x, f))
 		}
 		if withRate {
 			_, rl := rateLine(p, x.Elapsed)
 			st.constRate.add(fmt.Sprintf("c01.const.rate %s", x.params()), rl)
+			rateOracle(s, x, x.Elapsed)
 		}
 		s.Case(op, x.Freq > 0 && x.Per > 0)
 	case "sine":
@@ -307,8 +320,15 @@ func point(st *streams, s *kit.Summary, x *in, withRate bool) {
 			_, rl := rateLine(p, x.Elapsed)
 			sc := (math.Abs(float64(x.MeanFreq)/float64(x.MeanPer)) + math.Abs(float64(x.AmpFreq)/float64(x.AmpPer))) * 1e9
 			st.sineRate.add(fmt.Sprintf("c01.sine.rate %s %d", x.params(), x.Elapsed), rl, sc)
+			rateOracle(s, x, x.Elapsed)
+		}
+		if !pk && !stop && (x.Period < 0 || (x.MeanFreq < 0) != (x.MeanPer < 0) && x.MeanFreq != 0 && x.MeanPer != 0) {
+			report(s, x, finding{kind: "sine_negative_not_stopped", clause: "negative", what: "negative period / mean rate must stop the attack",
+				expected: "stop", observed: fmt.Sprintf("(%d, false)", w)})
 		}
 		waitBehind(s, x, w, stop, pk)
+		hitsOverflow(s, x, w, stop, pk)
+		pointContract(st, s, x, w, stop, pk)
 		s.Case(op, scheduleOf(x) != nil)
 	case "linear":
 		st.linPace.add(op, line)
@@ -325,8 +345,12 @@ func point(st *streams, s *kit.Summary, x *in, withRate bool) {
 		if withRate {
 			_, rl := rateLine(p, x.Elapsed)
 			st.linRate.add(fmt.Sprintf("c01.linear.rate %s %d", x.params(), x.Elapsed), rl)
+			rateOracle(s, x, x.Elapsed)
 		}
 		waitBehind(s, x, w, stop, pk)
+		hitsOverflow(s, x, w, stop, pk)
+		linearOverflow(st, s, x, w, stop, pk)
+		pointContract(st, s, x, w, stop, pk)
 		s.Case(op, scheduleOf(x) != nil)
 	}
 }
@@ -369,10 +393,7 @@ func loop(st *streams, s *kit.Summary, x *in, forced bool) {
 	s.CountN(x.Pacer+".loop:steps", out.steps)
 	s.Case(fmt.Sprintf("loop %s %s %d %d %d %v", x.Pacer, x.params(), x.T0, x.N0, x.Steps, len(x.Stalls)), out.steps >= 10)
 	if x.Pacer != "sine" {
-		stalls := make([]uint64, x.Steps)
-		copy(stalls, x.Stalls)
-		op := fmt.Sprintf("c01.%s.loop %s %d %d %s", x.Pacer, x.params(), x.T0, x.N0, kit.Uints(stalls))
-		impl := fmt.Sprintf("ok %d %d %d %d end=%d", out.steps, out.lastT, out.lastN, out.digest, out.end)
+		op, impl := loopOp(x, out)
 		if x.Pacer == "const" {
 			st.constLoop.add(op, impl)
 		} else {
@@ -388,7 +409,7 @@ func loop(st *streams, s *kit.Summary, x *in, forced bool) {
 		for _, g := range fs2 {
 			if g.clause == f.clause && g.kind == f.kind {
 				y.Steps = g.step + 1
-				report(s, &y, g)
+				report(s, &y, judged(st, &y, g))
 				done = true
 				break
 			}
@@ -399,9 +420,50 @@ func loop(st *streams, s *kit.Summary, x *in, forced bool) {
 			if len(z.Stalls) > z.Steps {
 				z.Stalls = z.Stalls[:z.Steps]
 			}
-			report(s, &z, f)
+			report(s, &z, judged(st, &z, f))
 		}
 	}
+}
+
+// loopOp renders the driver op and the implementation's digest line of a closed-loop input.
+func loopOp(x *in, out loopOut) (op, impl string) {
+	stalls := make([]uint64, x.Steps)
+	copy(stalls, x.Stalls)
+	return fmt.Sprintf("c01.%s.loop %s %d %d %s", x.Pacer, x.params(), x.T0, x.N0, kit.Uints(stalls)),
+		fmt.Sprintf("ok %d %d %d %d end=%d", out.steps, out.lastT, out.lastN, out.digest, out.end)
+}
+
+var knownLinearKinds = map[string]string{"linear_negative_slope_ahead": "linear_upper", "linear_subnanosecond_interval": "linear_upper"}
+
+// judged adds the key field `model_agrees` to a finding of the constant or linear pacer: does the
+// Lean model of the UNCHANGED code give the same trajectory (loop) / answer (point) for this very
+// input?  A known-finding kind is kept only when it does; a violation on an input where implementation
+// and model differ is a different defect and gets the fresh kind.
+func judged(st *streams, x *in, f finding) finding {
+	if x.Pacer == "sine" || x.Mode == "e2e" {
+		return f
+	}
+	var op, impl string
+	if x.Mode == "loop" {
+		out, _ := runLoop(x, nil)
+		op, impl = loopOp(x, out)
+	} else {
+		_, _, _, line := pace(x.pacer(), x.Elapsed, x.Hits)
+		op, impl = fmt.Sprintf("c01.%s.pace %s %d %d", x.Pacer, x.params(), x.Elapsed, x.Hits), line
+	}
+	agrees := false
+	if outs, err := kit.RunDriver(st.linLoop.c.Driver, []string{op}); err == nil && len(outs) == 1 {
+		agrees = outs[0] == impl
+	}
+	if f.key == nil {
+		f.key = map[string]interface{}{}
+	}
+	f.key["model_agrees"] = agrees
+	if fresh, ok := knownLinearKinds[f.kind]; ok && !agrees {
+		f.kind = fresh
+	}
+	st.linLoop.s.Count(fmt.Sprintf("%s.violation:model_agrees=%v", x.Pacer, agrees))
+	return f
 }
 
 func ampSign(x *in) string {
@@ -449,9 +511,12 @@ func replay(c *run.Ctx, s *kit.Summary, st *streams) {
 	}
 	x := &rec.Input
 	s.Sample(map[string]interface{}{"replay": x})
-	if x.Mode == "loop" {
+	switch x.Mode {
+	case "loop":
 		loop(st, s, x, true)
-	} else {
+	case "e2e":
+		e2e(s, x)
+	default:
 		point(st, s, x, true)
 	}
 	st.flush()
@@ -460,10 +525,12 @@ func replay(c *run.Ctx, s *kit.Summary, st *streams) {
 func runC01(c *run.Ctx, s *kit.Summary) {
 	r := kit.NewRng(c.Seed)
 	st := newStreams(c, s)
+	gst, gs = st, s
 	s.Rule = "points: (kind, params, elapsed, hits) with params from every time unit, extremes of the integer ranges, Freq≷Per, zero/negative, " +
 		"hits around the schedule and around MaxInt64/interval; loops: closed loop in virtual time from (0,0), random stall histories " +
 		"(none / sparse / bursts / jitter), sine/linear loops at 1..1e6 hits/s, sine amplitudes of both signs with |amp|/mean from 0 to 0.999999 (a few up to and above one hit per nanosecond), " +
-		"corpus/C01 witnesses first; non-trivial = positive (valid) parameters for a point, ≥10 released hits for a loop"
+		"corpus/C01 witnesses first; linear: hit counts around the overflow guard, negative slopes with a stall past the zero of the rate; " +
+		"constant: hit counts where the 128-bit quotient leaves 64 bits; the real Attack loop driven by the real pacers (e2e); non-trivial = positive (valid) parameters for a point, ≥10 released hits for a loop"
 	if c.Replay != "" {
 		replay(c, s, st)
 		return
@@ -541,6 +608,11 @@ func runC01(c *run.Ctx, s *kit.Summary) {
 		}
 		x.Mode = "point"
 		x.Elapsed, x.Hits = genLinearPoint(r, x, real)
+		if i%20 == 7 {
+			x = genLinearGuard(r)
+			x.Mode = "point"
+			s.Count("linear.params:overflow_guard_region")
+		}
 		s.Count(fmt.Sprintf("linear.params:realistic=%v", real))
 		point(st, s, x, i%4 == 0)
 		if i < 1 {
@@ -598,8 +670,29 @@ func runC01(c *run.Ctx, s *kit.Summary) {
 		x := genLinearRealistic(r)
 		x.Mode, x.Steps = "loop", steps
 		x.Stalls = genStalls(r, x.Steps, typicalInterval(x))
+		if a := x.slope(); a < 0 && r.Chance(0.4) {
+			// one long stall that carries the attack beyond the instant the declared rate reaches zero
+			// (x0 = b/|a| seconds), up to three times that far
+			x0 := float64(x.Freq) / float64(x.Per) * 1e9 / -a * 1e9
+			if x0 > 0 && x0 < 1e15 {
+				if x.Stalls == nil {
+					x.Stalls = make([]uint64, x.Steps)
+				}
+				x.Stalls[r.Pick(1+r.Pick(200))%len(x.Stalls)] = uint64(x0 * (0.2 + 3*r.Float64()))
+				s.Count("linear.loop:stall_past_zero_rate")
+			}
+		}
 		loop(st, s, x, true)
 	}
 	st.flush()
 	phase("linear loops")
+
+	// (iv) the real Attack loop driven by the real pacers (real time, lower bounds only)
+	for rep := 0; rep < c.N(1, 4); rep++ {
+		for _, x := range e2eCases(r) {
+			s.Count("e2e:" + x.Pacer)
+			e2e(s, x)
+		}
+	}
+	phase("e2e")
 }
